@@ -2,6 +2,7 @@ import DS.Model.Expand
 import DS.Lemmas.RealElem
 import Mathlib.Data.List.Nodup
 import Mathlib.Data.List.Perm.Basic
+import Mathlib.Data.List.Sigma
 
 /-!
 Helper lemmas about the expansion model `DS.Expand` (supercell, findCenter, makeEllipsoid):
@@ -567,5 +568,149 @@ theorem box_arith {x : ℝ} {n : ℤ} {m : ℕ} (hm : 0 < m) (hx0 : 0 ≤ x) (hx
   exact ⟨by omega, b'⟩
 
 end real
+
+/-! ### makeEllipsoid on the heap; specification of findCenter -/
+
+section heapell
+variable {α β : Type} [Add α] [Mul α] [Sub α] [Neg α] [Div α] [OfNat α 0] [OfNat α 1] [OfNat α 2]
+  [Elem α] [NatCast α] [LT α] [DecidableRel (α := α) (· < ·)] [IntCeil α]
+
+theorem filterMap_filter_refs (A : List (Atom α β)) (q : Atom α β → Bool) (refs : List Nat) :
+    (refs.filter (refTest A q)).filterMap (A[·]?)
+      = (refs.filterMap (A[·]?)).filter q := by
+  induction refs with
+  | nil => rfl
+  | cons r rs ih =>
+    cases hr : A[r]? with
+    | none => simp [refTest, hr, ih]
+    | some p =>
+      by_cases hq : q p = true
+      · simp [refTest, hr, hq, ih]
+      · simp [refTest, hr, hq, ih]
+
+/-- the value computed on the heap is the value of the pure model on the input's value -/
+theorem ellipsoidWithH_value (h : Heap α β) (S : HStru α) (sabc : Vec3 α) (k : Int) :
+    (ellipsoidWithH h S sabc k).map (fun p => p.2.value p.1) = ellipsoidWith (S.value h) sabc k := by
+  unfold ellipsoidWithH ellipsoidWith supercellH
+  cases hT : supercell (S.value h) [k, k, k] with
+  | error e => rfl
+  | ok T =>
+    have hv : (HStru.value (⟨h.atoms ++ T.atoms⟩ : Heap α β)
+        ⟨T.cell, List.range' h.atoms.length T.atoms.length⟩) = T := by
+      simp only [HStru.value, Heap.read, read_fresh]
+    simp only [hv]
+    cases hc : centreIndex T with
+    | none => rfl
+    | some nc =>
+      simp only [cutWith]
+      cases hca : T.atoms[nc]? with
+      | none => rfl
+      | some ca =>
+        simp only [Except.map, HStru.value, Heap.read, filterMap_filter_refs, read_fresh]
+
+end heapell
+
+/-! ### what `findCenter` returns (over a linear order) -/
+section fc
+variable {β : Type}
+
+/-- the distance `findCenter` minimises -/
+noncomputable def dmid (L : Cell ℝ) (a : Atom ℝ β) : ℝ := L.dist a.xyz ⟨1 / 2, 1 / 2, 1 / 2⟩
+
+theorem findCenterAux_spec (L : Cell ℝ) (as : List (Atom ℝ β)) (i : Nat) (best : Option Nat) (bestd : ℝ) :
+    (findCenterAux L as i best bestd = best ∧ ∀ a ∈ as, bestd ≤ dmid L a) ∨
+    (∃ pre c post, as = pre ++ c :: post ∧ findCenterAux L as i best bestd = some (i + pre.length) ∧
+      dmid L c < bestd ∧ (∀ p ∈ pre, dmid L c < dmid L p) ∧ (∀ p ∈ post, dmid L c ≤ dmid L p)) := by
+  induction as generalizing i best bestd with
+  | nil => left; simp [findCenterAux]
+  | cons a as ih =>
+    simp only [findCenterAux]
+    by_cases hlt : L.dist a.xyz ⟨1 / 2, 1 / 2, 1 / 2⟩ < bestd
+    · simp only [hlt, if_true]
+      rcases ih (i + 1) (some i) (L.dist a.xyz ⟨1 / 2, 1 / 2, 1 / 2⟩) with ⟨h1, h2⟩ | ⟨pre, c, post, e, h1, h2, h3, h4⟩
+      · right
+        exact ⟨[], a, as, rfl, by simpa using h1, hlt, by simp, h2⟩
+      · right
+        refine ⟨a :: pre, c, post, by simp [e], ?_, lt_trans h2 hlt, ?_, h4⟩
+        · rw [h1]; simp only [List.length_cons]; congr 1; omega
+        · intro p hp
+          rcases List.mem_cons.1 hp with rfl | hp
+          · exact h2
+          · exact h3 p hp
+    · simp only [hlt, if_false]
+      have hge : bestd ≤ dmid L a := not_lt.1 hlt
+      rcases ih (i + 1) best bestd with ⟨h1, h2⟩ | ⟨pre, c, post, e, h1, h2, h3, h4⟩
+      · left
+        refine ⟨h1, ?_⟩
+        intro p hp
+        rcases List.mem_cons.1 hp with rfl | hp
+        · exact hge
+        · exact h2 p hp
+      · right
+        refine ⟨a :: pre, c, post, by simp [e], ?_, h2, ?_, h4⟩
+        · rw [h1]; simp only [List.length_cons]; congr 1; omega
+        · intro p hp
+          rcases List.mem_cons.1 hp with rfl | hp
+          · exact lt_of_lt_of_le h2 hge
+          · exact h3 p hp
+
+/-- `centreIndex` picks the first atom at minimal distance from the middle `(½,½,½)` of the cell,
+provided that distance is below `len(S)`; otherwise (every atom at least `len(S)` away) the last atom -/
+theorem centreIndex_spec (T : Stru ℝ β) (nc : Nat) (h : centreIndex T = some nc) :
+    (∃ pre c post, T.atoms = pre ++ c :: post ∧ nc = pre.length ∧
+      (∀ p ∈ pre, dmid T.cell c < dmid T.cell p) ∧ (∀ p ∈ post, dmid T.cell c ≤ dmid T.cell p)) ∨
+    (T.atoms ≠ [] ∧ nc = T.atoms.length - 1 ∧ ∀ p ∈ T.atoms, (T.atoms.length : ℝ) ≤ dmid T.cell p) := by
+  unfold centreIndex findCenter at h
+  rcases findCenterAux_spec T.cell T.atoms 0 none (T.atoms.length : ℝ) with ⟨h1, h2⟩ | ⟨pre, c, post, e, h1, _, h3, h4⟩
+  · rw [h1] at h
+    simp only at h
+    split at h
+    · cases h
+    · next hne =>
+      cases h
+      exact Or.inr ⟨fun h0 => hne (by simp [h0]), rfl, h2⟩
+  · rw [h1] at h
+    simp only [Nat.zero_add, Option.some.injEq] at h
+    exact Or.inl ⟨pre, c, post, e, h.symm, h3, h4⟩
+
+end fc
+
+/-! ### labelling block atoms by (parent index, translation) -/
+
+section label
+variable {α β : Type} [Add α] [Mul α] [Div α] [NatCast α]
+
+/-- the block atoms labelled by (index of the parent in the input, box translation) -/
+def labelled (as : List (Atom α β)) (l m n : Nat) : List (Nat × (Nat × Nat × Nat) × Atom α β) :=
+  as.zipIdx.flatMap fun ap => (ijkList l m n).map fun t => (ap.2, t, image l m n ap.1 t)
+
+theorem labelled_atoms (as : List (Atom α β)) (l m n : Nat) :
+    (labelled as l m n).map (·.2.2) = as.flatMap (images l m n) := by
+  simp only [labelled, List.map_flatMap, List.map_map, Function.comp_def]
+  conv_rhs => rw [← List.zipIdx_map_fst 0 as, List.flatMap_map]
+  rfl
+
+theorem labelled_keys_nodup (as : List (Atom α β)) (l m n : Nat) :
+    ((labelled as l m n).map fun x => (x.1, x.2.1)).Nodup := by
+  simp only [labelled, List.map_flatMap, List.map_map, Function.comp_def]
+  refine List.nodup_flatMap.2 ⟨fun ap _ => ?_, ?_⟩
+  · exact (nodup_ijkList l m n).map (fun a b h => by simpa using h)
+  · have h := List.nodup_zipIdx_map_snd as
+    rw [List.Nodup, List.pairwise_map] at h
+    refine h.imp ?_
+    intro a b hab
+    simp only [Function.onFun, List.disjoint_left, List.mem_map]
+    rintro x ⟨t, _, rfl⟩ ⟨t', _, ht'⟩
+    simp only [Prod.mk.injEq] at ht'
+    exact hab ht'.1.symm
+
+theorem labelled_mem (as : List (Atom α β)) (l m n : Nat) (x : Nat × (Nat × Nat × Nat) × Atom α β)
+    (hx : x ∈ labelled as l m n) :
+    ∃ a, as[x.1]? = some a ∧ x.2.1 ∈ ijkList l m n ∧ x.2.2 = image l m n a x.2.1 := by
+  simp only [labelled, List.mem_flatMap, List.mem_map] at hx
+  obtain ⟨ap, hap, t, ht, rfl⟩ := hx
+  exact ⟨ap.1, List.mem_zipIdx_iff_getElem?.1 hap, ht, rfl⟩
+
+end label
 
 end DS.Expand
